@@ -110,7 +110,11 @@ func outs(p prf.PRF, input []byte, ls []uint32) (string, bool) {
 	return strings.Join(res, ","), det
 }
 
-func subtleNew(kind, hashName string, kb, salt []byte) (prf.PRF, error) {
+// subtleNew hands private copies of key and salt to the constructor and overwrites them
+// afterwards: the PRF must be the function of the bytes it was constructed with.
+func subtleNew(kind, hashName string, kb0, salt0 []byte) (prf.PRF, error) {
+	kb, salt := bytes.Clone(kb0), bytes.Clone(salt0)
+	defer hx.Scribble(kb, salt)
 	switch kind {
 	case "HM":
 		return prfsubtle.NewHMACPRF(hashName, kb)
